@@ -136,6 +136,9 @@ func verifStreamItems(sc verifStreamScn) []verifStreamItem {
 				t = fmt.Sprintf("héllo %d ✓ 世界 \U0001F600 \"quoted\" back\\slash\nnewline\ttab ", j)
 			case "empty":
 				t = ""
+			case "ws":
+				// nothing but whitespace (a blank preamble before a tool call is a real thing)
+				t = []string{"\n\n", " ", "\t\n "}[j%3]
 			case "big":
 				t = strings.Repeat(fmt.Sprintf("lorem %d ipsum ", j), 5200) // ~ 72 KiB
 			}
@@ -151,6 +154,8 @@ func verifStreamItems(sc verifStreamScn) []verifStreamItem {
 			it.Args = verifStreamCanon(map[string]any{"q": fmt.Sprintf("café %d ✓ 世界 \U0001F600 \"q\" a\\b\nline", j)})
 		case "empty":
 			it.Args = ""
+		case "ws":
+			it.Args = verifStreamCanon(map[string]any{"blank": " \n"})
 		case "big":
 			it.Args = verifStreamCanon(map[string]any{"data": strings.Repeat(fmt.Sprintf("blob%d ", j), 12000)}) // ~ 72 KiB
 		}
